@@ -569,8 +569,14 @@ but no other interpretation is applied
                self.topProduct and self.topProduct.name == hooks.config.Eups.defaultProduct["name"]:
             addDefaultProduct = False
 
+        # read the table as Eups.setup reads it: for the flavor the product was found under (a product declared
+        # under a fall-back flavor is read for that flavor, whatever the running flavor is)
+        tableFlavor = Eups.flavor
+        if self.topProduct and self.topProduct.flavor:
+            tableFlavor = self.topProduct.flavor
+
         deps = []
-        for a in self.actions(Eups.flavor, setupType=setupType):
+        for a in self.actions(tableFlavor, setupType=setupType):
             if a.cmd == Action.unsetupRequired:
                 if True:
                     optional = a.extra["optional"]
